@@ -10,6 +10,7 @@
 //!   F path              a file of /verif (corpus)
 //!   K index             an extreme constant expression in one of the compile-time-evaluated positions
 //!   A index             an attribute spelling in front of one kind of declaration or statement
+//!   G index             a pipeline property with one kind of value in one kind of pipeline
 //!   Q seed              a macro program of the C12 generator
 //!   X hex               the entry file given byte for byte
 //! Output: OK n | ERR <first line> | PANIC <file>: <message> ; the supervisor adds ABORT <status> and TIMEOUT.
@@ -224,6 +225,30 @@ fn attr_probe(i: usize) -> Option<String> {
     Some(format!("{}[numthreads(1, 1, 1)] void CSMAIN() {{}}\nPipeline Main {{ ComputeShader = CSMAIN; }}\n", p.replace('@', a)))
 }
 
+/// every pipeline property (and a few words that are none) with every kind of value, once or twice, in a compute,
+/// a vertex+pixel, a mesh+pixel and a stage-less pipeline
+pub const PIPE_PROPS: &[&str] = &[
+    "RenderTargetFormat0", "RenderTargetFormat3", "RenderTargetFormat7", "RenderTargetFormat8", "RenderTargetFormat", "DepthTargetFormat", "DefaultBindGroup", "CullMode", "WindingOrder",
+    "BlendState", "BlendState0", "BlendEnabled", "SrcBlend", "WriteMask", "ComputeShader", "VertexShader", "PixelShader", "MeshShader", "TaskShader", "Nothing",
+];
+pub const PIPE_VALUES: &[&str] = &[
+    "\"R8G8B8A8_UNORM\"", "\"D32_FLOAT\"", "\"\"", "Back", "Clockwise", "None", "CSMAIN", "VSMAIN", "nothing", "0", "3", "-1", "4000000000", "1.5", "true",
+    "{ BlendEnabled = true; SrcBlend = One; DstBlend = Zero; BlendOp = Add; }", "{ SrcBlend = 3; }", "{ WriteMask = 15; }", "{ WriteMask = RGBA; }", "{ Nothing = 1; }", "{ }", "{ BlendState = { }; }",
+];
+pub const PIPE_SHAPES: &[&str] = &["ComputeShader = CSMAIN;", "VertexShader = VSMAIN; PixelShader = PSMAIN;", "MeshShader = MSMAIN; PixelShader = PSMAIN;", ""];
+
+fn pipe_probe(i: usize) -> Option<String> {
+    let shape = PIPE_SHAPES[i % PIPE_SHAPES.len()];
+    let i = i / PIPE_SHAPES.len();
+    let twice = i % 2 == 1;
+    let i = i / 2;
+    let v = PIPE_VALUES[i % PIPE_VALUES.len()];
+    let p = PIPE_PROPS.get(i / PIPE_VALUES.len())?;
+    let prop = format!("{} = {};", p, v).replace("};", "}");
+    let body = if twice { format!("{} {} {}", prop, shape, prop) } else { format!("{} {}", shape, prop) };
+    Some(format!("struct VA {{ float4 position : SV_Position; }};\n[numthreads(1, 1, 1)] void CSMAIN() {{}}\nfloat4 VSMAIN(uint vid : SV_VertexID) : SV_Position {{ return float4(0, 0, 0, 1); }}\nfloat4 PSMAIN(float4 pos : SV_Position) : SV_Target0 {{ return pos; }}\n[numthreads(32, 1, 1)] [outputtopology(\"triangle\")] void MSMAIN(uint3 dtid : SV_DispatchThreadID, out vertices VA o_v[32], out indices uint3 o_t[32]) {{ SetMeshOutputCounts(32, 32); VA v; v.position = float4(0, 0, 0, 1); o_v[dtid.x] = v; o_t[dtid.x] = uint3(0, 1, 2); }}\nPipeline Main {{ {} }}\n", body))
+}
+
 fn const_probe(i: usize) -> Option<String> {
     let e = CONST_EXPRS.get(i / 8)?;
     let pre = "enum EK { A = 1, B = -3 };\n";
@@ -340,6 +365,7 @@ pub fn input_of(w: &[&str]) -> Option<Input> {
         ("S", 2) => plain(skeleton(w[1].parse().ok()?)),
         ("K", 2) => plain(const_probe(w[1].parse().ok()?)?),
         ("A", 2) => plain(attr_probe(w[1].parse().ok()?)?),
+        ("G", 2) => plain(pipe_probe(w[1].parse().ok()?)?),
         ("Q", 2) => {
             // a macro program of the C12 generator (definitions, invocations with right and wrong argument counts,
             // ## pastes, redefinitions, include graphs); the API defines are written as #define lines in front
@@ -417,6 +443,7 @@ pub fn gen_cases(seed: u64, n: usize, thorough: bool) -> Vec<String> {
     }
     for i in 0..(CONST_EXPRS.len() * 8) { out.push(format!("{} K {}", cfg(&mut rng), i)); }
     for i in 0..(ATTRS.len() * ATTR_POSITIONS.len()) { out.push(format!("{} A {}", cfg(&mut rng), i)); }
+    for i in 0..(PIPE_PROPS.len() * PIPE_VALUES.len() * 2 * PIPE_SHAPES.len()) { out.push(format!("{} G {}", cfg(&mut rng), i)); }
     for _ in 0..(n * 6).max(300) { out.push(format!("{} Q {}", cfg(&mut rng), rng.below(1 << 40))); }
     for _ in 0..n {
         out.push(format!("{} B {} {}", cfg(&mut rng), rng.below(1 << 40), rng.range(1, 4096)));
